@@ -6,7 +6,9 @@ import (
 	"go/constant"
 	"go/token"
 	"go/types"
+	"os"
 	"reflect"
+	"regexp"
 	"sort"
 	"strings"
 
@@ -474,7 +476,7 @@ func ruleSchemaTables(c *Check, rule, rSkip string) {
 	}
 	msgs := []msg{
 		{"KV", "KV", "FieldKV", [][3]string{{"snapshot", "DBI", "Append"}}, [][3]string{{"snapshot", "KV", "Unmarshal"}}},
-		{"DBI", "DBI", "FieldDBI", [][3]string{{"snapshot", "DBI", "doFlushFields"}, {"snapshot", "DBI", "Append"}}, [][3]string{{"snapshot", "DBI", "indexData"}}},
+		{"DBI", "DBI", "FieldDBI", [][3]string{{"snapshot", "DBI", "doFlushFields|flushFields"}, {"snapshot", "DBI", "Append"}}, [][3]string{{"snapshot", "DBI", "indexData"}}},
 		{"Snapshot", "Snapshot", "FieldSnapshot", [][3]string{{"snapshot", "Snapshot", "WriteTo"}}, [][3]string{{"snapshot", "Snapshot", "Unmarshal"}}},
 		{"Meta", "Snapshot_Meta", "FieldMeta", [][3]string{{"snapshot", "Meta", "Marshal"}}, [][3]string{{"snapshot", "Meta", "Unmarshal"}}},
 	}
@@ -514,7 +516,15 @@ func ruleSchemaTables(c *Check, rule, rSkip string) {
 		var wtbl []fieldWT
 		okW := true
 		for _, w := range m.writers {
-			t, ok := writerTable(c, w[0], w[1], w[2])
+			// a writer folded into its caller (as a closure or inline) is read there
+			wname := w[2]
+			for _, alt := range strings.Split(w[2], "|") {
+				wname = alt
+				if fd, _ := funcDecl(c, w[0], w[1], alt); fd != nil {
+					break
+				}
+			}
+			t, ok := writerTable(c, w[0], w[1], wname)
 			if !ok {
 				okW = false
 			}
@@ -539,7 +549,17 @@ func ruleSchemaTables(c *Check, rule, rSkip string) {
 		c.Expect(okW && fwEqual(wtbl, ref), rule, "schema:"+m.name+"/writer", fmt.Sprintf("the writer of %s emits exactly the schema's (field number/wire type) pairs %v", m.name, ref), fmt.Sprintf("the writer of %s emits %v (all tags resolved: %v); the published schema has %v", m.name, wtbl, okW, ref), "")
 		// reader
 		for _, r := range m.readers {
-			t, skip, ok := readerTable(c, r[0], r[1], r[2])
+			// read off the reader's paths; the syntactic table is a fallback for
+			// shapes the path extraction does not resolve
+			t, skip, ok := readerTableP(c, rule, r[0]+".(*"+r[1]+")."+r[2])
+			if !ok || !fwEqual(t, ref) || !skip {
+				if t2, skip2, ok2 := readerTable(c, r[0], r[1], r[2]); ok2 && fwEqual(t2, ref) && skip2 {
+					t, skip, ok = t2, skip2, ok2
+				}
+			}
+			if os.Getenv("LSDEBUG") != "" {
+				fmt.Fprintln(os.Stderr, "DEBUG reader", r, t, skip, ok)
+			}
 			c.Expect(ok && fwEqual(t, ref), rule, "schema:"+m.name+"/reader:"+r[2], fmt.Sprintf("the reader %s.%s accepts exactly the schema's (field number/wire type) pairs %v", r[1], r[2], ref), fmt.Sprintf("the reader %s.%s handles %v (resolved: %v); the published schema has %v", r[1], r[2], t, ok, ref), "")
 			c.Expect(skip, rSkip, "schema:"+m.name+"/unknown-skipped:"+r[2], "unknown field numbers are skipped by wire type", "the reader "+r[1]+"."+r[2]+" has no default case skipping unknown fields by wire type", "")
 		}
@@ -1261,12 +1281,6 @@ func isByteCarrier(t types.Type) bool {
 // the lengths of the encoded fields) is compared coefficient-wise with the
 // lower bound of the allocated length. A too small buffer truncates a copy
 // silently (the length prefix then disagrees with the payload) or panics.
-var writeFitsAssume = map[string]map[string]int64{
-	// DBI names are LMDB keys of the main database (at most 511 bytes); the
-	// transform is one of the constants of snapshot/transforms.go.
-	"snapshot.(*DBI).doFlushFields": {"d.name": 511, "d.transform": 50},
-}
-
 func ruleWriteFits(c *Check, rule string) {
 	nBuf, nObl, bad := 0, 0, 0
 	nInFn := map[string]int{}
@@ -1310,7 +1324,7 @@ func ruleWriteFits(c *Check, rule string) {
 		}
 		up := ups[fn]
 		if up == nil {
-			up = newBounder(fn, true, writeFitsAssume[QualName(fn)])
+			up = newBounder(fn, true, nil)
 			ups[fn] = up
 		}
 		for _, r := range *refs {
@@ -1591,4 +1605,137 @@ func copyGuarded(call *ssa.Call, window *ssa.Slice, buf ssa.Value) bool {
 		}
 	}
 	return false
+}
+
+var reTagTerm = regexp.MustCompile(`DecodeTag@[\w~]+#0|>> const:3\)`)
+
+// readerTableP: the (field number, wire type) pairs a reader accepts, read off
+// its paths (not its syntax): on a path that pins the decoded tag to a constant
+// k and goes on (next loop round or successful return), the wire type the path
+// insists on — the constant of the expectWT it passed (directly, in a known
+// get* helper, or inlined from a new helper) — gives the pair (k, wt). A path
+// that goes on with the tag pinned to no constant is the default case: it must
+// skip the field by wire type. switch, if-chain and table lookups (constant
+// package-level maps) all give the same paths.
+func readerTableP(c *Check, rule, fnName string) (tbl []fieldWT, hasDefaultSkip bool, ok bool) {
+	fn := c.P.Func(fnName)
+	if fn == nil || fn.Blocks == nil {
+		return nil, false, false
+	}
+	w := Walk(c.P, fn, WalkConfig{MaxPaths: 200000})
+	if w.Err != nil {
+		return nil, false, false
+	}
+	c.Evaluations += len(w.Paths)
+	ok = true
+	hasDefaultSkip = true
+	nDefault := 0
+	seen := map[int]int{}
+	helperWTs := map[string]int{}
+	wtOfHelper := func(f *ssa.Function) (int, bool) {
+		name := calleeName(f)
+		if v, done := helperWTs[name]; done {
+			return v, v >= 0
+		}
+		helperWTs[name] = -1
+		hw := Walk(c.P, f, WalkConfig{})
+		if hw.Err != nil {
+			return 0, false
+		}
+		vals := map[string]bool{}
+		for i := range hw.Paths {
+			for _, e := range callsOf(&hw.Paths[i], "snapshot.expectWT") {
+				if len(e.Args) == 3 {
+					vals[e.Args[2]] = true
+				}
+			}
+		}
+		if len(vals) != 1 {
+			return 0, false
+		}
+		for v := range vals {
+			if k, isK := constInt(v); isK {
+				helperWTs[name] = int(k)
+				return int(k), true
+			}
+		}
+		return 0, false
+	}
+	for i := range w.Paths {
+		p := &w.Paths[i]
+		goesOn := strings.HasPrefix(p.End, "backedge:") || p.End == "return" && retIsNilErr(p)
+		if !goesOn {
+			continue
+		}
+		// the tag term and the constant it is pinned to on this path
+		tagTerm, pinned, k := "", false, 0
+		for _, cd := range p.Conds() {
+			a := cd.Atom
+			if a.Kind != "cmp" || !strings.HasPrefix(a.B, "const:") || !reTagTerm.MatchString(a.A) {
+				continue
+			}
+			tagTerm = a.A
+			if v, isK := constInt(a.B); isK && p.State.RelOf(a.Dom, a.A, a.B) == EQ {
+				pinned, k = true, int(v)
+			}
+		}
+		if tagTerm == "" {
+			continue // no field was decoded on this path (end of data)
+		}
+		if !pinned {
+			nDefault++
+			skipped := len(callsOf(p, "snapshot.skipTag")) > 0 || len(callsOf(p, "(*csproto.Decoder).Skip")) > 0
+			if !skipped {
+				hasDefaultSkip = false
+			}
+			continue
+		}
+		// the wire type insisted on
+		wt, found := -1, false
+		for j := range p.Events {
+			e := &p.Events[j]
+			if e.Kind != "call" {
+				continue
+			}
+			switch {
+			case e.Callee == "snapshot.expectWT" && len(e.Args) == 3:
+				if v, isK := constInt(e.Args[2]); isK {
+					if okv, f := boolCond(p, "isnil("+e.Res+")", -1); f && okv {
+						wt, found = int(v), true
+					}
+				}
+			case e.Static != nil && !e.Inl && strings.HasPrefix(fnPkgPath(e.Static), modPath) && len(e.Args) >= 3 && e.Args[len(e.Args)-2] == tagTerm:
+				// a known helper taking (decoder, tag, wire type)
+				if v, okh := wtOfHelper(e.Static); okh {
+					wt, found = v, true
+				}
+			}
+		}
+		if !found {
+			// an inlined comparison of the wire type with a constant
+			for _, cd := range p.Conds() {
+				a := cd.Atom
+				if a.Kind == "cmp" && strings.HasPrefix(a.B, "const:") && (strings.Contains(a.A, "& const:7") || strings.Contains(a.A, "DecodeTag@") && strings.HasSuffix(a.A, "#1")) && p.State.RelOf(a.Dom, a.A, a.B) == EQ {
+					if v, isK := constInt(a.B); isK {
+						wt, found = int(v), true
+					}
+				}
+			}
+		}
+		if !found {
+			ok = false
+			continue
+		}
+		if old, dup := seen[k]; dup && old != wt {
+			ok = false
+		}
+		if _, dup := seen[k]; !dup {
+			seen[k] = wt
+			tbl = append(tbl, fieldWT{k, wt})
+		}
+	}
+	if nDefault == 0 {
+		hasDefaultSkip = false
+	}
+	return sortFW(tbl), hasDefaultSkip, ok
 }
